@@ -64,6 +64,15 @@ func genScript(r *hk.Rng, exotic bool, retentionMode bool) *script {
 				ts = cur.Add(-time.Duration(r.Range(0, 6)) * s.Res) // late / out of order
 			case 1:
 				ts = cur.Add(-s.Retention + time.Duration(r.Range(-2, 2))*s.Res) // at the retention edge
+				if retentionMode && r.Chance(1, 2) {
+					// less than one period on either side of the cut-off (the clock is the newest
+					// timestamp so far, usually not on a period boundary)
+					d := hk.Pick(r, []time.Duration{time.Nanosecond, time.Millisecond, s.Res / 3, s.Res / 2, s.Res - time.Millisecond, s.Res - time.Nanosecond})
+					if r.Chance(2, 3) {
+						d = -d
+					}
+					ts = cur.Add(-s.Retention + d)
+				}
 			case 2:
 				ts = cur.Truncate(s.Res) // exact boundary
 			case 3:
@@ -290,12 +299,37 @@ func oneCase(ctx *hk.RunCtx, r *hk.Rng, idx uint64) error {
 	gone := map[string]bool{} // (key|period|field) seen absent from disk after a truncating flush while strictly expired
 	mpoints := []interface{}{}
 	nIngest, nFlush := 0, 0
+	var newest time.Time
 	for _, o := range sc.Ops {
 		switch o.Kind {
 		case "ingest":
+			// C14 oracle (implementation only): a point that is older than the retention period
+			// when it is processed is never stored - the raw memstore-inclusive view of the table
+			// (all periods) is the same before and after it
+			var vOld map[string]string
+			tooOld := false
+			if retentionMode && !newest.IsZero() && o.P.TS.Before(newest.Add(-s.Retention)) && db.Quiesce(10*time.Second) &&
+				o.P.TS.UnixNano() < db.VerifNow()-int64(s.Retention) {
+				tooOld = true
+				before, _ := db.Scan(s.Table, nil, true)
+				vOld = semView(all, before, s.Res, -1<<62)
+			}
 			if err := db.Insert(s.Stream, o.P); err != nil {
 				ctx.Res.Hit("insert-error")
 				continue
+			}
+			if o.P.TS.After(newest) {
+				newest = o.P.TS
+			}
+			if tooOld && db.Quiesce(10*time.Second) {
+				ctx.Res.Hit("point-older-than-retention")
+				if newest.Add(-s.Retention).Sub(o.P.TS) < s.Res {
+					ctx.Res.Hit("point-less-than-one-period-too-old")
+				}
+				after, _ := db.Scan(s.Table, nil, true)
+				if d := diffViews(vOld, semView(all, after, s.Res, -1<<62)); d != "" {
+					propFail = append(propFail, pf{"C14", fmt.Sprintf("a point with timestamp %d, older than now-retention = %d when it was processed, was stored: %s", o.P.TS.UnixNano(), db.VerifNow()-int64(s.Retention), d)})
+				}
 			}
 			nIngest++
 			mp := o.P.ModelJSON(q.Where)
